@@ -23,6 +23,7 @@ class MemberShape:
 
 class Climatology(Job):
     prop = "C08"
+    offgrid = "scale"      # comparison-only oracle: exact on every float, see harness.offgrid_probe
     max_paths = 3000
 
     def __init__(self, n, members, as_object=False, canary=None, prop="C08", frac=False):
